@@ -8,6 +8,6 @@ CONSTANTS
   MaxFileFields = 1
   MaxItems = 2
   MaxFields = 2
-  MaxValues = 2
+  MaxValues = 1
 INVARIANTS BodyHolds AuthHolds
 CHECK_DEADLOCK FALSE
